@@ -158,6 +158,30 @@ def run(ctx):
     g_ok = any(any(x[0] == "attr" and x[2] == "tasks" for x in subterms(g)) for g in gathers)
     ctx.ob("C18.a", DISCOVER, g_ok, "discover() gathers the protocol's task set", func=DISCOVER, file=d.module.rel, construct="asyncio.gather(*protocol.tasks)",
            fail="discover() does not gather protocol.tasks")
+    # ... of a protocol that accepts no more replies: the listening socket is closed before the task set is handed to gather.  A gather that sits
+    # inside the construct that closes the transport on exit (the `try` whose `finally` closes it, a `with closing(transport)`) runs while
+    # datagram_received still creates tasks - a host accepted in that window is connected to but missing from the result
+    par_d = {}
+    for n in ast.walk(d.node):
+        for c in ast.iter_child_nodes(n):
+            par_d[c] = n
+
+    def _closes(stmts):
+        return any(isinstance(c, ast.Call) and isinstance(c.func, ast.Attribute) and c.func.attr in ("close", "abort") for st_ in stmts for c in ast.walk(st_))
+    for gn in [n for n in ast.walk(d.node) if isinstance(n, ast.Call) and ds.ta.terms_at.get(n) is not None and call_is(ds.ta.terms_at[n], "asyncio.gather")]:
+        inside, x = None, gn
+        while x in par_d:
+            p_ = par_d[x]
+            if isinstance(p_, ast.Try) and any(x is b for b in p_.body) and p_.finalbody and _closes(p_.finalbody):
+                inside = p_
+            if isinstance(p_, (ast.With, ast.AsyncWith)) and any(isinstance(it.context_expr, ast.Call) and norm(it.context_expr.func).split(".")[-1] in ("closing", "aclosing")
+                                                               for it in p_.items) and any(x is b for b in p_.body):
+                inside = p_
+            x = p_
+        ctx.ob("C18.a", DISCOVER, inside is None, "the task set is gathered after the listening socket was closed (no reply is accepted once the set has been handed to gather)",
+               func=DISCOVER, file=d.module.rel, node=gn,
+               fail="the tasks are gathered while the transport is still open (the close sits in the finally / with-exit around the gather): a host whose first "
+                    "reply arrives while an earlier device is still being connected is accepted but not reported")
     # ... and reports nothing but what that one gather returned (entries removed, never added): a second source of devices (a list filled
     # by done-callbacks, results kept from an earlier run) lets one host appear twice
     def result_sources(t, depth=0):
